@@ -156,14 +156,13 @@ impl DmlExecutor {
         let snapshot = self.ctx.snapshot().clone();
         let tid = self.ctx.tid();
 
-        // Get the relation and allocate a new row ID
-        let mut relation = self
-            .ctx
-            .catalog()
-            .get_relation(table_id, &tree_builder, &snapshot)?;
-
-        let row_id = relation.next_row_id();
-        relation.increment_row_id();
+        // Get the relation and allocate a new row ID. Reading the counter and storing the
+        // incremented value must be one step: two inserters that both read the same value
+        // would build the same table key and the second row would silently be dropped.
+        let (relation, row_id) =
+            self.ctx
+                .catalog()
+                .allocate_row_id(table_id, &tree_builder, &snapshot)?;
 
         let schema = relation.schema().clone();
         let root = relation.root();
@@ -210,16 +209,6 @@ impl DmlExecutor {
             None,
             &schema,
             row_id.value(),
-        )?;
-
-        // Update relation metadata
-        self.ctx.catalog().update_relation(
-            relation.object_id(),
-            Some(relation.next_row_id().value()),
-            None,
-            None,
-            &tree_builder,
-            &snapshot,
         )?;
 
         Ok(InsertResult {
